@@ -1,4 +1,10 @@
-"""C19 — centrality classification is total, monotone and consistent with its sample.  Tie C (exact, order-only).
+"""C19 — centrality classification is total, monotone and consistent with its sample.  Ties T + C (exact, order-only).
+
+Tie T: harness/translate/centrality.py regenerates Gen/Centrality.lean (`genBuild`, `genClassLoop`, `genRank`,
+`genLookup`, `genLookupLoop`) from the current source of `__create_centrality_classes` / `get_centrality_class`;
+Lemmas/CentralityGen.lean proves them equal to the hand-written model.  Tie C: the hand-written model (`pipe`) AND the
+generated functions (`gpipe`, cut indices evaluated by the driver at Float through the generated expression) are run by
+the driver and compared with the real class.
 
 Multiplicities are multiples of 1/2 and travel to the Lean driver as the integers 2*m; percentile edges travel as
 the bit pattern of their double (strictly monotone on non-negative doubles).  The rank boundaries
@@ -230,6 +236,13 @@ def build_line(variant, sample, edges, queries):
             f"{ilist(ekey(c) for c in edges)}\t{tb}\t{ilist(queries)}")
 
 
+def gen_line(sample, edges, queries):
+    """the same case for the GENERATED functions: no rank table, the driver evaluates the generated cut-index
+    expression at Float from the edges' bit patterns"""
+    return (f"gpipe\t0\t{ilist(mkey(x) for x in sample)}\t{ekey(0.0)}\t{ekey(100.0)}\t"
+            f"{ilist(ekey(c) for c in edges)}\t{ilist(queries)}")
+
+
 def check_contract(ctx, sample, obj):
     n = len(sample)
     R = [rank_of(n, c) for c in obj.centrality_bins_]
@@ -296,8 +309,10 @@ def correspond(ctx):
         lines.append(build_line("fix", sample, edges, queries))
         metas.append((sample, edges, queries, s_py, e_py, q_py, sstyle, etags))
     outs = common.run_driver("C19", lines)
+    gouts = common.run_driver("C19", [gen_line(*m[:3]) for m in metas])
     nbroken = 0
     mism = []
+    gmism = []
     for i, (meta, out) in enumerate(zip(metas, outs)):
         sample, edges, queries, s_py, e_py, q_py, sstyle, etags = meta
         real, obj = real_canon(s_py, e_py, q_py)
@@ -318,6 +333,18 @@ def correspond(ctx):
         if real != out:
             mism.append(i)
             nbroken += 1
+        if real != gouts[i]:
+            gmism.append(i)
+    ctx.cov["generated_model_mismatches"] = len(gmism)
+    if gmism:
+        i = gmism[0]
+        sample, edges, queries = metas[i][:3]
+        real, _ = real_canon(metas[i][3], metas[i][4], metas[i][5])
+        ctx.brk("correspondence-broken",
+                f"generated model (Gen/Centrality.lean, cut indices at Float): {len(gmism)} of {len(metas)} cases differ; "
+                f"first: sample={sample} edges={edges}: code `{real}` vs generated `{gouts[i]}`",
+                case=dict(sample=[float(x) for x in sample], edges=[float(c) for c in edges], queries=queries,
+                          code=real, model=gouts[i]))
     if mism:
         # classify: does the real code behave like the model of the code before the repair?
         wl = [build_line("wrap", *metas[i][:3]) for i in mism[:200]]
@@ -518,34 +545,31 @@ def replay(ctx, path):
     sample, edges = inp["sample"], inp["edges"]
     qs = gen_queries(ctx.rng, sample)
     real, _ = real_canon([as_py(mkey(x)) for x in sample], list(edges), [as_py(q) for q in qs])
-    model = common.run_driver("C19", [build_line("fix", sample, edges, qs)])[0]
-    print(f"[C19] sample={sample} edges={edges}\n[C19] code : {real}\n[C19] model: {model}")
+    model, gmodel = common.run_driver("C19", [build_line("fix", sample, edges, qs), gen_line(sample, edges, qs)])
+    print(f"[C19] sample={sample} edges={edges}\n[C19] code : {real}\n[C19] model: {model}\n[C19] gen  : {gmodel}")
     r = oracle_check(sample, edges)
     if r:
         print(f"VIOLATION property=C19 replay={path}")
         print(r[1])
         return 1
-    if real != model:
+    if real != model or real != gmodel:
         print("[C19] replay: the property holds on this input but code and model differ (correspondence broken)")
         return 1
     print("[C19] replay: property holds on this input now")
     return 0
 
 
-# ------------------------------------------------------------------ source regions (information only; the tie is C)
+# ------------------------------------------------------------------ translator (tie T)
 def translate(ctx):
-    """No Lean text is generated for C19 (tie C only).  The three anchored regions are located with `ast` and hashed
-    into the evidence so that a run records which source text it was about."""
+    """Gen/Centrality.lean from the current `__create_centrality_classes` / `get_centrality_class` (and the checked part
+    of `__init__`).  Raises Untranslatable when the source has left the fragment (golden fallback, tie C only)."""
+    from translate import centrality
     src = common.read_src("CentralityClasses.py")
-    tree = ast.parse(src)
-    lines = src.splitlines()
-    regions = []
-    cls = next((n for n in tree.body if isinstance(n, ast.ClassDef) and n.name == "CentralityClasses"), None)
-    for fn in (cls.body if cls else []):
-        if isinstance(fn, ast.FunctionDef) and fn.name in ("__init__", "_CentralityClasses__create_centrality_classes",
-                                                          "__create_centrality_classes", "get_centrality_class"):
-            body = [s for s in fn.body if not (isinstance(s, ast.Expr) and isinstance(getattr(s, "value", None), ast.Constant))]
-            text = "\n".join(lines[body[0].lineno - 1:fn.end_lineno])
-            regions.append(dict(file="src/sparkx/CentralityClasses.py", region=fn.name, lines=[body[0].lineno, fn.end_lineno],
-                                sha=common.region_hash(text), tie="C (hash recorded for information)"))
+    text, regions = centrality.render(src)
+    common.write_if_changed(common.LEAN / "SparkxVerif/Gen/Centrality.lean", text)
+    golden = common.LEAN / "golden/Gen/Centrality.lean"
+    ctx.cov["gen_equals_golden"] = golden.exists() and golden.read_text() == text
+    ctx.cov["tie"] = ("T + C: __create_centrality_classes (guards, ranking, cut-index expression, class loop, stored "
+                      "min/max) and get_centrality_class regenerated and proved equal to the model; edge cleaning in "
+                      "__init__ and the float evaluation of int(n*c/100.0) by correspondence")
     return regions
